@@ -19,8 +19,12 @@ def run(tier, seed):
     crops = L.CROPS if tier == "thorough" else rnd.sample(L.CROPS, 8)
     res = C.pmap(R.crop_worker, [(c, tier == "thorough", seed + i) for i, c in enumerate(crops)])
     sweeps = [s for r in res for s in r]
-    concs = [250, 300, 340, 369.41, 400, 450, 500, 549, 550, 551, 600, 800, 1200, 1999, 2000, 2500] if tier == "thorough" else [250, 369.41, 450, 549, 551, 900, 2000, 2500]
-    fc = C.pmap(R.fco2_worker, [(c, concs) for c in (L.CROPS if tier == "thorough" else rnd.sample(L.CROPS, 5))])
+    # the CO2 factor switches formula at 550 ppm and its weighting ramps from the reference concentration: fine lattice around both, every crop
+    # (the sink-strength parameter differs between crops), at initialisation AND as recomputed at the start of a later season
+    near = [540, 545, 548, 549, 549.5, 550, 550.5, 551, 552, 554, 556, 560]
+    concs = sorted(set([250, 300, 340, 360, 369.41, 375, 400, 450, 500, 600, 800, 1200, 1999, 2000, 2500] + near + [545 + 0.25 * i for i in range(45)])) if tier == "thorough" \
+        else sorted(set([250, 369.41, 380, 450, 900, 2000, 2500] + near))
+    fc = C.pmap(R.fco2_worker, [(c, concs, kind) for c in L.CROPS for kind in ("init", "later")])
     sweeps += [s for s in fc if s is not None]
     verdicts, tstats = tlc.validate_docs(sweeps, "Response", lambda s: len(s["pts"]))
     V = C.Verdicts(PROP)
